@@ -24,7 +24,17 @@ def run(ctx):
     rr = ctx.path("random.ndjson")
     ctx.run_bin("c30", ["random", "--seed", ctx.seed, "--n", 6000 if q else 80000, "--out", rr])
     for path, drv in ((tr, "h-programs c30 small"), (rr, "h-programs c30 random")):
-        fails, drifts = c24.validate_chunked(ctx, "Trace_Gt", path, chunk=120000)
+        try:
+            fails, drifts = c24.validate_chunked(ctx, "Trace_Gt", path, chunk=120000)
+        except vlib.ToolError as ex:
+            # an established violation is the verdict; a later tool problem (e.g. a 32-bit overflow in TLC while
+            # re-computing a cost the code got wrong) must not mask it
+            if ctx.violations:
+                ctx.note("trace validation of %s aborted after violations were already established: %s"
+                         % (path, str(ex).splitlines()[0][:200]))
+                evs.append(vlib.read_ndjson(path))
+                continue
+            raise
         ev = vlib.read_ndjson(path)
         for f in fails:
             e = ev[f["i"] - 1]
@@ -42,7 +52,13 @@ def run(ctx):
         if not cnt.get(k):
             if not ctx.violations:
                 raise vlib.ToolError("vacuity: no event of class " + k)
-    cls = {"mfv_with_remainder": sum(1 for e in allev if e["op"] == "mfv" and e["ok"] and e["n"] and
+    def crossing_below_total(e):       # a mint crossing a grow step while supply < total minted (after burns / requests)
+        return (e["op"] in ("mint", "mfv") and e["ok"] and e["pre"]["supply"] < e["pre"]["total"]
+                and e["post"]["total"] // e["cfg"]["step"] > e["pre"]["total"] // e["cfg"]["step"])
+    cls = {"step_crossed_after_burn_or_request": sum(1 for e in allev if crossing_below_total(e)),
+           "two_steps_crossed_after_burn_or_request": sum(1 for e in allev if crossing_below_total(e) and
+                                                          e["post"]["total"] // e["cfg"]["step"] > e["pre"]["total"] // e["cfg"]["step"] + 1),
+           "mfv_with_remainder": sum(1 for e in allev if e["op"] == "mfv" and e["ok"] and e["n"] and
                                      e["out"]["value"] % max(e["out"]["cost"], 1) != 0),
            "mint_crossing_steps": sum(1 for e in allev if e["post"]["steps"] > e["pre"]["steps"]),
            "mint_crossing_2_steps": sum(1 for e in allev if e["post"]["steps"] > e["pre"]["steps"] + 1),
